@@ -264,6 +264,9 @@ func c08Rules(res *core.CaseResult, events []rec.Event, commits []c08Commit, tag
 func c08Concurrent(env *core.Env, r *rand.Rand, idx int, res *core.CaseResult) ([]rec.Event, []c08Commit, map[string]any) {
 	memKB := []int{96, 128, 256, 1024}[r.Intn(4)]
 	clients := 6 + r.Intn(7)
+	if memKB < 128 && clients > 8 {
+		clients = 8 // 24 frames: more concurrent statements than that can pin every frame at once (capacity, not correctness)
+	}
 	ops := 40
 	if env.Thorough() {
 		ops = 80
